@@ -131,9 +131,14 @@ func (o *OverlayWorld) FindLocationByID(id b6.FeatureID) (s2.LatLng, error) {
 
 func (o *OverlayWorld) FindRelationsByFeature(id b6.FeatureID) b6.RelationFeatures {
 	byID := make(map[b6.RelationID]b6.RelationFeature)
-	for _, w := range []b6.World{o.base, o.overlay} {
+	for i, w := range []b6.World{o.base, o.overlay} {
 		r := w.FindRelationsByFeature(id)
 		for r.Next() {
+			if i == 0 && o.overlay.HasFeatureWithID(r.FeatureID()) {
+				// Replaced by the overlay's version, which may no longer
+				// reference id.
+				continue
+			}
 			byID[r.Feature().RelationID()] = r.Feature()
 		}
 	}
@@ -146,9 +151,12 @@ func (o *OverlayWorld) FindRelationsByFeature(id b6.FeatureID) b6.RelationFeatur
 
 func (o *OverlayWorld) FindCollectionsByFeature(id b6.FeatureID) b6.CollectionFeatures {
 	byID := make(map[b6.CollectionID]b6.CollectionFeature)
-	for _, w := range []b6.World{o.base, o.overlay} {
+	for i, w := range []b6.World{o.base, o.overlay} {
 		c := w.FindCollectionsByFeature(id)
 		for c.Next() {
+			if i == 0 && o.overlay.HasFeatureWithID(c.FeatureID()) {
+				continue // Replaced by the overlay's version, as above.
+			}
 			byID[c.Feature().CollectionID()] = c.Feature()
 		}
 	}
@@ -161,9 +169,12 @@ func (o *OverlayWorld) FindCollectionsByFeature(id b6.FeatureID) b6.CollectionFe
 
 func (o *OverlayWorld) FindAreasByPoint(p b6.FeatureID) b6.AreaFeatures {
 	byID := make(map[b6.AreaID]b6.AreaFeature)
-	for _, w := range []b6.World{o.base, o.overlay} {
+	for i, w := range []b6.World{o.base, o.overlay} {
 		areas := w.FindAreasByPoint(p)
 		for areas.Next() {
+			if i == 0 && o.overlay.HasFeatureWithID(areas.FeatureID()) {
+				continue // Replaced by the overlay's version, as above.
+			}
 			byID[areas.Feature().AreaID()] = areas.Feature()
 		}
 
@@ -177,9 +188,12 @@ func (o *OverlayWorld) FindAreasByPoint(p b6.FeatureID) b6.AreaFeatures {
 
 func (o *OverlayWorld) FindReferences(id b6.FeatureID, typed ...b6.FeatureType) b6.Features {
 	byID := make(map[b6.FeatureID]b6.Feature)
-	for _, w := range []b6.World{o.base, o.overlay} {
+	for i, w := range []b6.World{o.base, o.overlay} {
 		references := w.FindReferences(id, typed...)
 		for references.Next() {
+			if i == 0 && o.overlay.HasFeatureWithID(references.FeatureID()) {
+				continue // Replaced by the overlay's version, as above.
+			}
 			byID[references.FeatureID()] = references.Feature()
 		}
 
